@@ -238,6 +238,32 @@ pub fn c19() -> Result<u64, String> {
         match quiet(|| PMTiles::from_bytes_partially(&b, 3..9).map(|p| p.num_tiles())) { Ok(Err(_)) => {}, Ok(Ok(_)) => return Err(format!("partial open of an archive with Unknown internal compression (root {root_len} bytes) succeeded")), Err(p) => return Err(format!("partial open of Unknown compression panicked: {p}")) }
         match quiet(|| block_on(PMTiles::from_async_reader(futures::io::Cursor::new(b.clone()))).map(|p| p.num_tiles())) { Ok(Err(_)) => {}, Ok(Ok(_)) => return Err(format!("async: an archive with Unknown internal compression (root {root_len} bytes, metadata {meta_len} bytes) was opened")), Err(p) => return Err(format!("async open of Unknown compression panicked: {p}")) }
     }
+    // a refused directory (length-0 entry) leaves the output stream as it was, at any index, for every compression, sync and async
+    for len in [1usize, 5, 300] { for pos in [0, len - 1] { for c in COMPS { n += 1;
+        let mut es = gen_dir(&mut r, len, false); es[pos].len = 0;
+        let d = Directory::from(to_entries(&es));
+        let mut out = Cursor::new(vec![0xABu8; 40]); out.seek(SeekFrom::Start(40)).unwrap();
+        let res = quiet(|| d.to_writer(&mut out, c)).map_err(|p| format!("serialiser panicked: {p}"))?;
+        if res.is_ok() { return Err(format!("serialiser accepted a length-0 entry at index {pos} of {len} ({c:?})")); }
+        if out.position() != 40 || out.get_ref().len() != 40 || out.get_ref().iter().any(|&x| x != 0xAB) { return Err(format!("serialiser refused a directory with a length-0 entry at index {pos} of {len} ({c:?}) but had already written {} bytes to the output", out.get_ref().len().max(out.position() as usize) - 40)); }
+        let mut aout = futures::io::Cursor::new(Vec::new());
+        let ares = quiet(|| block_on(d.to_async_writer(&mut aout, c))).map_err(|p| format!("async serialiser panicked: {p}"))?;
+        if ares.is_ok() { return Err(format!("async serialiser accepted a length-0 entry at index {pos} of {len} ({c:?})")); }
+        if !aout.get_ref().is_empty() { return Err(format!("async serialiser refused a length-0 entry at index {pos} of {len} ({c:?}) but had already written {} bytes", aout.get_ref().len())); }
+    } } }
+    // unknown internal compression is refused when WRITING through every entry point, sync and async
+    {
+        let tl = gen_tiles(&mut r, 3, 2); n += 1;
+        let mut apm = PMTiles::new_async(TileType::Png, Compression::None); apm.internal_compression = Compression::Unknown; for (k, v) in &tl { apm.add_tile(*k, v.clone()).unwrap(); }
+        let mut o = futures::io::Cursor::new(Vec::new());
+        match quiet(|| block_on(apm.to_async_writer(&mut o))) { Ok(Err(_)) => {}, Ok(Ok(())) => return Err("async writing with Unknown internal compression succeeded".into()), Err(p) => return Err(format!("async writing with Unknown compression panicked: {p}")) }
+        let d = Directory::from(to_entries(&gen_dir(&mut r, 4, false)));
+        if d.to_writer(&mut Cursor::new(Vec::new()), Compression::Unknown).is_ok() { return Err("Directory::to_writer with Unknown compression succeeded".into()); }
+        if block_on(d.to_async_writer(&mut futures::io::Cursor::new(Vec::new()), Compression::Unknown)).is_ok() { return Err("Directory::to_async_writer with Unknown compression succeeded".into()); }
+        let mut v = Vec::new(); if util::compress(Compression::Unknown, &mut v).is_ok() { return Err("compress(Unknown) succeeded".into()); }
+        let mut fo = futures::io::Cursor::new(Vec::new()); if util::compress_async(Compression::Unknown, &mut fo).is_ok() { return Err("compress_async(Unknown) succeeded".into()); }
+        if block_on(util::write_directories_async(&mut futures::io::Cursor::new(Vec::new()), &to_entries(&gen_dir(&mut r, 3, false)), Compression::Unknown, None)).is_ok() { return Err("write_directories_async with Unknown compression succeeded".into()); }
+    }
     // metadata that is JSON but not an object; unknown internal compression
     let tiles = gen_tiles(&mut r, 3, 2);
     for c in COMPS { for v in ["null", "true", "0", "1.5", "\"x\"", "[]", "[{}]", "7", "-1", "\"\"", "42", " 1"] {
@@ -308,6 +334,19 @@ pub fn c04() -> Result<u64, String> {
         let (b, _) = write_at(pm, 0).map_err(|e| format!("save failed after [{hs}]: {e}"))?; pm = PMTiles::from_bytes(b).map_err(|e| format!("reopen failed after [{hs}]: {e}"))?; hs += "save+reopen ";
         check_model(&mut pm, &m, &[0, 1, 2, 3, 4, 5], &hs)?;
     }
+    // an archive large enough to need leaf directories (also when compressed): every tile survives save+reopen, edits hit the right ids
+    for (cnt, c) in [(6000usize, Compression::None), (4097, Compression::None), (30000, Compression::GZip)] { n += 1;
+        let mut m: Model = (0..cnt as u64).map(|i| (i * 3 + (i % 7), vec![(i % 251) as u8, (i / 251) as u8, 7])).collect();
+        let (b, _) = write_at(build(&m, c, &Default::default()), 0).map_err(|e| e.to_string())?;
+        let mut pm = PMTiles::from_bytes(b).map_err(|e| format!("archive of {cnt} tiles does not re-open: {e}"))?;
+        if pm.num_tiles() != m.len() { return Err(format!("archive of {cnt} tiles ({c:?}): {} tiles after save+reopen", pm.num_tiles())); }
+        let last = *m.keys().next_back().unwrap(); let mid = *m.keys().nth(cnt / 2).unwrap();
+        for id in [0u64, mid, last, *m.keys().nth(cnt - 2).unwrap(), *m.keys().nth(4096.min(cnt - 1)).unwrap()] { if pm.get_tile_by_id(id).map_err(|e| e.to_string())?.as_ref() != m.get(&id) { return Err(format!("archive of {cnt} tiles ({c:?}): tile {id} differs or is missing after save+reopen")); } }
+        pm.remove_tile(mid); m.remove(&mid); pm.add_tile(last + 5, vec![4, 4]).map_err(|e| e.to_string())?; m.insert(last + 5, vec![4, 4]);
+        let (b2, _) = write_at(pm, 0).map_err(|e| e.to_string())?; let mut pm2 = PMTiles::from_bytes(b2).map_err(|e| e.to_string())?;
+        if pm2.num_tiles() != m.len() { return Err(format!("archive of {cnt} tiles ({c:?}) after remove+add+save+reopen: {} tiles, expected {}", pm2.num_tiles(), m.len())); }
+        for id in [0u64, mid, last, last + 5] { if pm2.get_tile_by_id(id).map_err(|e| e.to_string())?.as_ref() != m.get(&id) { return Err(format!("archive of {cnt} tiles ({c:?}) after remove+add+save+reopen: lookup({id}) differs")); } }
+    }
     // random long histories over a larger alphabet, starting from a foreign archive
     let mut r = Rng::new(seed() ^ 4);
     for round in 0..40 {
@@ -336,6 +375,41 @@ pub fn c04() -> Result<u64, String> {
 pub fn c10() -> Result<u64, String> {
     let mut r = Rng::new(seed() ^ 10);
     let mut n = 0u64;
+    {   // retention while lookups happen in between: a content stays as long as one id refers to it (opened archive, duplicates, reads, removals)
+        let mut want = Model::new(); for id in [3u64, 4, 9, 20] { want.insert(id, vec![5, 5, 5, 5]); } want.insert(7, vec![1, 2]); want.insert(8, vec![1, 2]);
+        for c in COMPS { n += 1;
+            let bytes = write_at(build(&want, c, &Default::default()), 0).map_err(|e| e.to_string())?.0;
+            let mut pm = PMTiles::from_bytes(bytes).map_err(|e| e.to_string())?; let mut m = want.clone(); let mut hs = String::from("open ");
+            for step in 0..6 {
+                for id in [9u64, 4, 3, 20, 7, 8] { let got = pm.get_tile_by_id(id).map_err(|e| format!("lookup({id}) after [{hs}]: {e}"))?; if got.as_ref() != m.get(&id) { return Err(format!("lookup({id}) after [{hs}] returns {:?}, expected {:?} ({c:?})", got.as_ref().map(|v| v.len()), m.get(&id).map(|v| v.len()))); } }
+                match step { 0 => { pm.remove_tile(20); m.remove(&20); hs += "lookups remove(20) "; } 1 => { pm.add_tile(30, vec![5, 5, 5, 5]).map_err(|e| e.to_string())?; m.insert(30, vec![5, 5, 5, 5]); hs += "lookups add(30, same content) "; }
+                    2 => { pm.remove_tile(3); m.remove(&3); hs += "lookups remove(3) "; } 3 => { pm.remove_tile(8); m.remove(&8); hs += "lookups remove(8) "; } 4 => { pm.remove_tile(30); m.remove(&30); hs += "lookups remove(30) "; } _ => {} }
+            }
+            let out = write_at(pm, 0).map_err(|e| format!("save after [{hs}]: {e}"))?.0;
+            let p = parse_archive(&out).map_err(|e| format!("archive written after [{hs}] invalid: {e}"))?;
+            for (id, cnt) in &m { if p.bytes_of(&out, *id) != Some(&cnt[..]) { return Err(format!("after [{hs}] and save, tile {id} is missing or has other bytes ({c:?})")); } }
+            if p.tiles.len() != m.len() { return Err(format!("after [{hs}] and save the directories address {} ids, expected {} ({c:?})", p.tiles.len(), m.len())); }
+        }
+    }
+    {   // a foreign archive that stores the same content at several offsets, opened and saved WITHOUT edits: the output stores each distinct content once
+        let mut want = Model::new(); for id in 0u64..3 { want.insert(id, vec![9, 9, 9, 9]); } for id in 4u64..7 { want.insert(id, vec![9, 9, 9, 9]); } want.insert(10, vec![1, 2, 3]); want.insert(12, vec![1, 2, 3]);
+        for ic in 1u8..=4 { n += 1;
+            // every id gets its own copy of its content in the tile data section
+            let mut data = Vec::new(); let mut es = Vec::new(); for (id, v) in &want { es.push(E { id: *id, off: data.len() as u64, len: v.len() as u32, run: 1 }); data.extend(v); }
+            let root = compress(ic, &dir_enc(&es)); let meta = compress(ic, b"{}");
+            let h = Hdr { root_off: 127, root_len: root.len() as u64, meta_off: 127 + root.len() as u64, meta_len: meta.len() as u64, leaf_off: 127 + (root.len() + meta.len()) as u64, leaf_len: 0,
+                data_off: 127 + (root.len() + meta.len()) as u64, data_len: data.len() as u64, n_addr: want.len() as u64, n_entries: es.len() as u64, n_contents: es.len() as u64, clustered: 1, ic, tc: 1, tt: 1,
+                min_zoom: 0, max_zoom: 3, min_lon: 0, min_lat: 0, max_lon: 0, max_lat: 0, center_zoom: 0, c_lon: 0, c_lat: 0 };
+            let mut b = build_header(&h); b.extend(&root); b.extend(&meta); b.extend(&data);
+            let pm = PMTiles::from_bytes(b).map_err(|e| format!("foreign archive with repeated contents does not open: {e}"))?;
+            let out = write_at(pm, 0).map_err(|e| e.to_string())?.0;
+            let p = parse_archive(&out).map_err(|e| format!("re-saved foreign archive invalid: {e}"))?;
+            let distinct: usize = 4 + 3;
+            if p.hdr.data_len as usize != distinct { return Err(format!("a foreign archive that stores 2 distinct contents 8 times, opened and saved without edits: tile data section has {} bytes, {} expected (each distinct content once) (compression code {ic})", p.hdr.data_len, distinct)); }
+            if p.entries.len() != 4 { return Err(format!("re-saved foreign archive: {} directory entries, 4 expected (runs 0..=2, 4..=6 and the single ids 10, 12) (compression code {ic})", p.entries.len())); }
+            for (id, cnt) in &want { if p.bytes_of(&out, *id) != Some(&cnt[..]) { return Err(format!("re-saved foreign archive: tile {id} differs")); } }
+        }
+    }
     {   // runs longer than 2^16 and identical contents whose ids are a multiple of 2^32 (plus a run length) apart
         let mut cases: Vec<(Model, &str)> = Vec::new();
         let mut long_run = Model::new(); for i in 0..70_000u64 { long_run.insert(100 + i, vec![7, 7, 7]); } long_run.insert(5, vec![1]); cases.push((long_run, "a run of 70000 identical consecutive tiles"));
@@ -465,6 +539,7 @@ pub fn c01_c02_c18() -> Result<u64, String> {
     let mut cases: Vec<(Model, Compression, u64)> = Vec::new();
     for round in 0..48 { cases.push((gen_tiles(&mut r, [0, 1, 2, 5, 9, 40][round % 6], 1 << (round % 30)), COMPS[round % 4], [0u64, 1, 10, 127, 4096, 77][round % 6])); }
     { let mut z31 = Model::new(); for id in [util::tile_id(31, 0, 0), util::tile_id(31, 0, 0) + 5, util::tile_id(31, (1 << 31) - 1, (1 << 31) - 1), util::tile_id(31, 1 << 30, 3), util::tile_id(30, 9, 9), util::tile_id(27, 1, 2), 6148914691236517204 /* the last id of zoom 31 */, 6148914691236517203] { z31.insert(id, vec![(id % 251) as u8, 1, 2]); } cases.push((z31, Compression::GZip, 0)); }
+    cases.push((big_tiles(6000), Compression::None, 20_000)); cases.push((noisy_tiles(12000, &mut r), Compression::GZip, 70_001));
     cases.push((big_tiles(6000), Compression::None, 0)); cases.push((big_tiles(4080), Compression::None, 24)); cases.push((big_tiles(30000), Compression::GZip, 3)); cases.push((noisy_tiles(12000, &mut r), Compression::GZip, 11)); cases.push((noisy_tiles(9000, &mut r), Compression::Brotli, 0));
     {   // a pre-filled stream that is LONGER than P + archive: the writer must leave the position at the archive's end
         let tiles = gen_tiles(&mut r, 4, 2);
@@ -576,6 +651,17 @@ pub fn c03_c11_c20() -> Result<u64, String> {
             same_content(&mut part, &want, &format!("partial open with range ({lo:?}, {hi:?}) of {desc}"))?;
         }
     }
+    // C03: foreign archives whose directories are very regular (consecutive ids, equal lengths, back-to-back offsets) compress to far less than one byte per entry
+    for ic in 2u8..=4 { for cnt in [40usize, 3000] { n += 1;
+        let tiles: Model = (0..cnt as u64).map(|i| (i, vec![(i % 251) as u8, (i / 251) as u8, 3])).collect();
+        let b = foreign_archive(&mut r, &tiles, ic, 0, false);
+        parse_archive_foreign(&b).map_err(|e| format!("generator bug: {e}"))?;
+        let mut pm = PMTiles::from_bytes(b.clone()).map_err(|e| format!("spec-valid foreign archive with {cnt} very regular entries (compression code {ic}) does not open: {e}"))?;
+        if pm.num_tiles() != cnt { return Err(format!("foreign archive with {cnt} regular entries: {} tiles seen", pm.num_tiles())); }
+        for id in [0u64, 1, cnt as u64 / 2, cnt as u64 - 1] { if pm.get_tile_by_id(id).map_err(|e| e.to_string())?.as_ref() != tiles.get(&id) { return Err(format!("foreign archive with {cnt} regular entries: tile {id} differs")); } }
+        let a = block_on(PMTiles::from_async_reader(futures::io::Cursor::new(b))).map_err(|e| format!("async: spec-valid foreign archive with {cnt} very regular entries (compression code {ic}) does not open: {e}"))?;
+        if a.num_tiles() != cnt { return Err("async open sees another tile count".into()); }
+    } }
     // C11: ranges that lie strictly INSIDE a run of equal tiles, and ranges that start behind the last id of zoom 31
     {
         use std::ops::Bound::*;
@@ -1157,6 +1243,35 @@ pub fn c20() -> Result<u64, String> {
             let (o, l) = p.tiles[id]; let (ws, we) = (h.data_off + o, h.data_off + o + l as u64);
             let lg = log.borrow(); let lo = lg.iter().map(|x| x.0).min(); let hi = lg.iter().map(|x| x.1).max();
             if lo != Some(ws) || hi != Some(we) { return Err(format!("lookup of tile {id} read bytes {lo:?}..{hi:?}, its range is {ws}..{we}")); } }
+    }
+    {   // async open through a stream whose first transfer is short and whose second poll fails once with `Interrupted`: whatever the outcome, no tile-data byte is read
+        use std::pin::Pin; use std::task::{Context, Poll};
+        struct Jitter { d: Vec<u8>, pos: usize, calls: usize, first: usize, touched: std::sync::Arc<std::sync::Mutex<Vec<(u64, u64)>>> }
+        impl futures::io::AsyncRead for Jitter { fn poll_read(mut self: Pin<&mut Self>, _cx: &mut Context<'_>, b: &mut [u8]) -> Poll<std::io::Result<usize>> {
+            self.calls += 1;
+            if self.calls == 2 { return Poll::Ready(Err(std::io::Error::new(std::io::ErrorKind::Interrupted, "interrupted"))); }
+            let cap = if self.calls == 1 { self.first } else { usize::MAX };
+            let c = b.len().min(cap).min(self.d.len() - self.pos); let p = self.pos; b[..c].copy_from_slice(&self.d[p..p + c]); self.pos += c;
+            if c > 0 { self.touched.lock().unwrap().push((p as u64, (p + c) as u64)); } Poll::Ready(Ok(c)) } }
+        impl futures::io::AsyncSeek for Jitter { fn poll_seek(mut self: Pin<&mut Self>, _cx: &mut Context<'_>, p: SeekFrom) -> Poll<std::io::Result<u64>> {
+            let np = match p { SeekFrom::Start(o) => o as i128, SeekFrom::End(o) => self.d.len() as i128 + o as i128, SeekFrom::Current(o) => self.pos as i128 + o as i128 };
+            if np < 0 { return Poll::Ready(Err(std::io::Error::new(std::io::ErrorKind::InvalidInput, "negative seek"))); } self.pos = (np as usize).min(self.d.len()); Poll::Ready(Ok(np as u64)) } }
+        let mut tiles: Model = BTreeMap::new(); for i in 0..5u64 { tiles.insert(i * 2, vec![i as u8 + 1; 100]); }
+        // a layout other writers may use: the tile data section directly behind the header
+        let fb = { let mut data = Vec::new(); let mut es = Vec::new(); for (id, v) in &tiles { es.push(E { id: *id, off: data.len() as u64, len: v.len() as u32, run: 1 }); data.extend(v); }
+            let root = dir_enc(&es); let meta = b"{}".to_vec(); let doff = 127u64; let roff = doff + data.len() as u64; let moff = roff + root.len() as u64;
+            let h = Hdr { root_off: roff, root_len: root.len() as u64, meta_off: moff, meta_len: meta.len() as u64, leaf_off: moff + meta.len() as u64, leaf_len: 0, data_off: doff, data_len: data.len() as u64,
+                n_addr: tiles.len() as u64, n_entries: es.len() as u64, n_contents: es.len() as u64, clustered: 1, ic: 1, tc: 1, tt: 1, min_zoom: 0, max_zoom: 3, min_lon: 0, min_lat: 0, max_lon: 0, max_lat: 0, center_zoom: 0, c_lon: 0, c_lat: 0 };
+            let mut b = build_header(&h); b.extend(&data); b.extend(&root); b.extend(&meta); b };
+        for (name, b) in [("library-written", write_at(build(&tiles, Compression::None, &Default::default()), 0).map_err(|e| e.to_string())?.0), ("foreign", fb)] {
+            let p = parse_archive_foreign(&b)?; let h = &p.hdr;
+            for first in [1usize, 60, 126] { n += 1;
+                let log = std::sync::Arc::new(std::sync::Mutex::new(Vec::new()));
+                let res = block_on(PMTiles::from_async_reader(Jitter { d: b.clone(), pos: 0, calls: 0, first, touched: log.clone() }));
+                for (lo, hi) in log.lock().unwrap().iter() { if *hi > h.data_off && *lo < h.data_off + h.data_len && h.data_len > 0 {
+                    return Err(format!("async open of a {name} archive through a stream with a {first}-byte first transfer followed by one Interrupted error read bytes {lo}..{hi} of the tile data section {}..{} (open returned {})", h.data_off, h.data_off + h.data_len, if res.is_ok() { "Ok" } else { "Err" })); } }
+            }
+        }
     }
     {   // a lookup that fails once part-way (transient fault, few bytes per read) and is then repeated: the retry reads exactly the tile's range again
         struct Flaky { inner: Cursor<Vec<u8>>, fail_at_read: usize, reads: usize, touched: std::rc::Rc<std::cell::RefCell<Vec<(u64, u64)>>> }
